@@ -486,6 +486,10 @@ def compute_reproject_roi(
 
     pts_per_side = 5
 
+    if align == 0:
+        # ``0`` means "no alignment" on every path, not just when pasting
+        align = None
+
     tr = native_pix_transform(src, dst)
 
     if tr.linear is None:
